@@ -191,6 +191,14 @@ func (s *slot) Check(ctx *base.EntryContext) *base.TokenResult {
 			}
 			r.ResetToBlockedWithCause(bt, "m", rule, int(eid))
 			return r
+		case "partial":
+			// blocks through the helper that names only the block type: no rule, no snapshot
+			r := ctx.RuleCheckResult
+			if r == nil {
+				return base.NewTokenResultBlocked(bt)
+			}
+			r.ResetToBlocked(bt)
+			return r
 		case "const":
 			// a slot that built its "blocked" answer once and hands out the same object every time
 			if s.own == nil {
